@@ -30,7 +30,8 @@ def pair_probability(purity: float) -> float:
     # g2 (1+x)^2 = 2x  ->  g2 x^2 + (2 g2 - 2) x + g2 = 0
     a, b, c = g2, 2 * g2 - 2, g2
     disc = b * b - 4 * a * c
-    return (-b - math.sqrt(disc)) / (2 * a)
+    # the smaller root, in the form that does not subtract two nearly equal numbers (b < 0): 2c / (-b + sqrt(disc))
+    return 2 * c / (-b + math.sqrt(disc))
 
 
 def slot_outcomes(brightness: float, purity: float, indist: float):
